@@ -12,9 +12,12 @@ type axisRange struct{ Min, Max int32 }
 
 // (the usual ones twice; then short levers and switches, round decimal ranges, powers of two as maxima, 12-bit)
 var axisRanges = []axisRange{{0, 255}, {-128, 127}, {-127, 127}, {-32768, 32767}, {0, 65535}, {0, 1023}, {-1, 1}, {-512, 511},
-	{0, 255}, {-128, 127}, {-32768, 32767}, {0, 1}, {0, 2}, {0, 4}, {0, 100}, {-100, 100}, {0, 256}, {0, 4095}, {-2048, 2047}, {-2, 2}, {0, 127}, {0, 16383}}
+	{0, 255}, {-128, 127}, {-32768, 32767}, {0, 1}, {0, 2}, {0, 4}, {0, 100}, {-100, 100}, {0, 256}, {0, 4095}, {-2048, 2047}, {-2, 2}, {0, 127}, {0, 16383},
+	// ranges that do not start at 0 (a 1..255 stick, a touchpad), and ranges with one side only
+	{1, 255}, {64, 192}, {1472, 5472}, {100, 200}, {-255, 0}, {-1, 0}, {-32768, 0}, {1, 2}}
 
-var deadzoneSet = []float64{0, 0.002, 0.05, 0.1, 0.25, 0.49, 0.5, 0.9}
+// (the user guide gives 0.0 - 1.0 as the range of a deadzone: 1.0 is a deadzone that covers the whole travel)
+var deadzoneSet = []float64{0, 0.002, 0.05, 0.1, 0.25, 0.49, 0.5, 0.9, 1.0, 0.999, 0.95}
 
 func genDeadzone(t *rapid.T, label string) float64 {
 	if rapid.Bool().Draw(t, label+"Fixed") {
@@ -67,14 +70,18 @@ func interestingRaws(a *AxisDef, dz float64) []int32 {
 	add(float64(a.Max))
 	add(0)
 	add((float64(a.Min) + float64(a.Max)) / 2)
-	if a.Center != nil && *a.Center && a.Min >= 0 {
-		add(float64(a.Max) * (1 + dz) / 2)
-		add(float64(a.Max) * (1 - dz) / 2)
-	} else {
+	span := float64(a.Max) - float64(a.Min)
+	switch {
+	case a.Center != nil && *a.Center && a.Min >= 0:
+		add(float64(a.Min) + span*(1+dz)/2)
+		add(float64(a.Min) + span*(1-dz)/2)
+	case a.Min >= 0:
+		add(float64(a.Min) + span*dz)
+		add(float64(a.Min) + span/4)
+		add(float64(a.Min) + 3*span/4)
+	default:
 		add(float64(a.Max) * dz)
-		if a.Min < 0 {
-			add(float64(a.Min) * dz)
-		}
+		add(float64(a.Min) * dz)
 	}
 	out := make([]int32, 0, len(set))
 	for r := range set {
@@ -261,7 +268,7 @@ func genC07(t *rapid.T) AxisCase {
 	c07Codes := drawAxisCodes(t, []uint16{0, 1, 3}, nAxes)
 	for i := 0; i < nAxes; i++ {
 		rg := rapid.SampledFrom([]axisRange{{-128, 127}, {-32768, 32767}, {0, 255}, {0, 1023}, {-1, 1}, {-127, 127}, {-128, 127}, {-32768, 32767}, {0, 255},
-			{0, 2}, {0, 100}, {-100, 100}, {0, 256}, {0, 4095}, {-2048, 2047}, {0, 65535}, {-2, 2}}).Draw(t, "range")
+			{0, 2}, {0, 100}, {-100, 100}, {0, 256}, {0, 4095}, {-2048, 2047}, {0, 65535}, {-2, 2}, {1, 255}, {64, 192}, {1472, 5472}}).Draw(t, "range")
 		a := AxisDef{Sub: "", Code: c07Codes[i], Type: "cc", Min: rg.Min, Max: rg.Max, CC: intp(ccs[2*i]), CCNeg: intp(ccs[2*i+1])}
 		if (rg.Min == 0 && rapid.IntRange(0, 3).Draw(t, "center") > 0) || (rg.Min < 0 && rapid.IntRange(0, 5).Draw(t, "centerOnSigned") == 0) {
 			a.Center = boolp(true) // on a signed axis the option has nothing to move
@@ -316,8 +323,8 @@ func genC07(t *rapid.T) AxisCase {
 		a := &m.Axes[i]
 		lo, hi := float64(a.Min), float64(a.Max)
 		mid := 0.0
-		if a.Min == 0 {
-			mid = hi / 2
+		if a.Min >= 0 {
+			mid = (lo + hi) / 2
 		}
 		// alternate sides with p ~ 0.5 so that repeated crossings are frequent
 		if rapid.Bool().Draw(t, "cross") {
@@ -380,7 +387,7 @@ func genC08(t *rapid.T) AxisCase {
 	c08Codes := drawAxisCodes(t, []uint16{0x10, 0x11}, nAxes)
 	for i := 0; i < nAxes; i++ {
 		rg := rapid.SampledFrom([]axisRange{{-1, 1}, {-1, 1}, {-32768, 32767}, {-128, 127}, {0, 255}, {0, 1023}, {-1, 1}, {-32768, 32767}, {0, 255},
-			{0, 2}, {0, 1}, {0, 4}, {0, 100}, {-100, 100}, {0, 256}, {0, 4095}, {-2, 2}, {0, 65535}}).Draw(t, "range")
+			{0, 2}, {0, 1}, {0, 4}, {0, 100}, {-100, 100}, {0, 256}, {0, 4095}, {-2, 2}, {0, 65535}, {1, 255}, {64, 192}, {100, 200}, {-255, 0}, {-1, 0}}).Draw(t, "range")
 		a := AxisDef{Sub: "", Code: c08Codes[i], Type: "key", Min: rg.Min, Max: rg.Max}
 		note := rapid.OneOf(rapid.IntRange(0, 127), rapid.SampledFrom([]int{0, 1, 126, 127, 60})).Draw(t, "note")
 		a.Note = intp(note)
